@@ -426,6 +426,8 @@ class World:
                                          version_info=__import__("sys").version_info, exit=_sys_exit,
                                          stdin=None, maxsize=__import__("sys").maxsize)
         m["platform"] = types.SimpleNamespace(system=lambda: "Linux")
+        import io as _io
+        m["io"] = types.SimpleNamespace(StringIO=_io.StringIO, BytesIO=_io.BytesIO)
         m["ctypes"] = _Proxy("ctypes")
 
         # --- urllib.parse
